@@ -400,3 +400,5 @@ def run(ctx):
     # reader and writer agree on the state byte / sizes byte bit fields, the decoder dispatch and the choice of node form (shared with C09)
     ctx.step(formatrules.state_and_sizes_bits, ctx)
     ctx.step(formatrules.form_selection, ctx)
+    ctx.rule('R12.2', 'a refreshed cache cell holds exactly the probe node (clone_from copies finality, final output and REPLACES the transitions)', floor=1)
+    ctx.step(C12.node_copy, ctx, 'R12.2')
